@@ -35,6 +35,14 @@ MT1 = "memref<1xi32>"
 MTT = f"memref<{T}xi32>"
 SV = f"memref<1xi32, strided<[1], offset: ?>>"
 LOOPS = [(0, n, 1) for n in range(0, 7)] + [(1, 5, 1), (0, 6, 2), (2, 6, 1)]
+LOOPS_MORE = [(0, 7, 1), (0, 8, 1), (1, 1, 1), (3, 2, 1), (0, 7, 3), (1, 8, 2)]
+
+
+# variants. alloc: the plain shape. mi/mc/mi2/mc2: the buffer between stage 0 and 1 is a tile of M (see build). lv: it is a local allocation that the consumer
+# reads through a view taken outside the loop. late: the output subview is computed right before the last stage instead of with the other index computations.
+# trail: a conditional copy follows the last barrier of the body.
+MIDS = ["alloc", "mi", "mc", "mi2", "mc2", "lv", "late", "trail"]
+SV0 = "memref<1xi32, strided<[1]>>"
 
 
 def space(tier):
@@ -44,9 +52,12 @@ def space(tier):
             for inkind in ("tile", "whole"):
                 for outkind in ("tile", "whole"):
                     for extra in (0, 1, 2):
-                        for loop in LOOPS:
+                        for loop in LOOPS + (LOOPS_MORE if tier == "thorough" else []):
                             for dyn in (0, 1):
-                                out.append((S, first, inkind, outkind, extra, loop, dyn))
+                                for mid in MIDS:
+                                    if mid != "alloc" and tier == "quick" and (extra or dyn or loop[1] not in (0, 2, 3, 5)):
+                                        continue
+                                    out.append((S, first, inkind, outkind, extra, loop, dyn, mid))
     return out
 
 
@@ -69,14 +80,25 @@ def gen_op(kind, tag, ins, outs):
 
 
 def build(case):
-    S, first, inkind, outkind, extra, (lb, ub, st), dyn = case
+    S, first, inkind, outkind, extra, (lb, ub, st), dyn, mid = case
     kinds = [first if k % 2 == 0 else ("C" if first == "D" else "D") for k in range(S)]
     lines = []
-    args = [f"%A : {MTT}", f"%O : {MTT}", f"%W : {MT1}", f"%A1 : {MT1}", f"%O1 : {MT1}"]
+    args = [f"%A : {MTT}", f"%O : {MTT}", f"%W : {MT1}", f"%A1 : {MT1}", f"%O1 : {MT1}", f"%M : {MTT}"]
     if dyn:
-        args.append("%ubarg : index")
+        args.insert(5, "%ubarg : index")
+    # the buffer between stage 0 and stage 1: a local allocation, or a tile of the function argument M selected by the index computations
+    # (mi: tile i, mc: the same tile 0 in every iteration; mi2 / mc2: producer and consumer use two separate subviews of that tile)
     for k in range(S - 1):
+        if k == 0 and mid in ("mi", "mc", "mi2", "mc2", "lv"):
+            continue
         lines.append(f"  %L{k} = memref.alloc() : {MT1}")
+    if mid in ("mc", "mc2"):
+        lines.append("  %cm = arith.constant 0 : index")
+    if mid == "lv":
+        lines.append(f"  %L0 = memref.alloc() : {MT1}")
+        lines.append(f"  %lv = memref.subview %L0[0] [1] [1] : {MT1} to {SV0}")
+    if mid == "trail":
+        lines.append("  %true = arith.constant true")
     if extra == 2 and first == "D":
         lines.append(f"  %Lb = memref.alloc() : {MT1}")
     lines.append(f"  %lb = arith.constant {lb} : index")
@@ -92,18 +114,31 @@ def build(case):
         lines.append(f"    %tin = memref.subview %A[%i] [1] [1] : {MTT} to {SV}")
         src0 = ("%tin", SV)
     if outkind == "tile":
-        lines.append(f"    %tout = memref.subview %O[%i] [1] [1] : {MTT} to {SV}")
+        if mid != "late":
+            lines.append(f"    %tout = memref.subview %O[%i] [1] [1] : {MTT} to {SV}")
         dstl = ("%tout", SV)
-    if inkind == "whole" and outkind == "whole":
+    if inkind == "whole" and outkind == "whole" and mid == "alloc":
         lines.append("    %dummy = arith.addi %i, %i : index")
+    mid_w = mid_r = ("%L0", MT1)
+    if mid == "lv":
+        mid_r = ("%lv", SV0)
+    if mid in ("mi", "mc", "mi2", "mc2"):
+        sel = "%i" if mid in ("mi", "mi2") else "%cm"
+        lines.append(f"    %mw = memref.subview %M[{sel}] [1] [1] : {MTT} to {SV}")
+        mid_w = mid_r = ("%mw", SV)
+        if mid in ("mi2", "mc2"):
+            lines.append(f"    %mr = memref.subview %M[{sel}] [1] [1] : {MTT} to {SV}")
+            mid_r = ("%mr", SV)
     two_loads = extra == 2 and kinds[0] == "D" and S >= 2
     for k in range(S):
-        ins = [src0 if k == 0 else (f"%L{k-1}", MT1)]
-        outs = [dstl if k == S - 1 else (f"%L{k}", MT1)]
+        ins = [src0 if k == 0 else mid_r if k == 1 else (f"%L{k-1}", MT1)]
+        outs = [dstl if k == S - 1 else mid_w if k == 0 else (f"%L{k}", MT1)]
         if extra == 1 and kinds[k] == "C":
             ins.append(("%W", MT1))
         if two_loads and k == 1:
             ins.append(("%Lb", MT1))
+        if mid == "late" and outkind == "tile" and k == S - 1:
+            lines.append(f"    %tout = memref.subview %O[%i] [1] [1] : {MTT} to {SV}")
         for l in gen_op(kinds[k], k + 1, ins, outs):
             lines.append("    " + l)
         if two_loads and k == 0:
@@ -111,14 +146,20 @@ def build(case):
             for l in gen_op("D", 10, [("%W", MT1)], [("%Lb", MT1)]):
                 lines.append("    " + l)
         lines.append('    "snax.cluster_sync_op"() : () -> ()')
+    if mid == "trail":
+        lines.append("    scf.if %true {")
+        lines.append(f'      "memref.copy"(%W, %O1) {{verif.id = 20 : i32}} : ({MT1}, {MT1}) -> ()')
+        lines.append("    }")
     lines.append("  }")
     text = "builtin.module {\nfunc.func @f(" + ", ".join(args) + ") {\n" + "\n".join(lines) + "\n  func.return\n}\n}\n"
-    argv = ["A", "O", "W", "A1", "O1"] + ([ub] if dyn else [])
+    argv = ["A", "O", "W", "A1", "O1", "M"] + ([ub] if dyn else [])
+    if dyn:
+        argv = argv[:5] + [ub, "M"]
     return text, argv, kinds
 
 
 def tiles_of(v):
-    if v.buf[0] in ("A", "O"):
+    if v.buf[0] in ("A", "O", "M"):
         if len(v.sizes) != 1 or v.strides != [1] and v.sizes != [1]:
             raise InterpError(f"unexpected view {v}")
         return tuple((v.buf[0], v.offset + k) for k in range(v.sizes[0]))
@@ -170,6 +211,8 @@ def core_events(mod, argv, core):
             args.append(View(("A", 0), 4, 0, [T], [1], 0x1000))
         elif a == "O":
             args.append(View(("O", 0), 4, 0, [T], [1], 0x2000))
+        elif a == "M":
+            args.append(View(("M", 0), 4, 0, [T], [1], 0x6000))
         elif a in ("W", "A1", "O1"):
             args.append(View((a, 0), 4, 0, [1], [1], {"W": 0x3000, "A1": 0x4000, "O1": 0x5000}[a]))
         else:
@@ -183,14 +226,14 @@ PIPE = "construct-pipeline,pipeline-duplicate-buffers,unroll-pipeline"
 
 def project(final):
     mem_t, obs_t = final
-    mem = tuple((k, v) for k, v in mem_t if k[0] in ("A", "O", "W", "A1", "O1"))
+    mem = tuple((k, v) for k, v in mem_t if k[0] in ("A", "O", "W", "A1", "O1", "M"))
     return mem, obs_t
 
 
 def evaluate(case) -> CaseResult:
     r = CaseResult()
     text, argv, kinds = build(case)
-    S, first, inkind, outkind, extra, (lb, ub, st), dyn = case
+    S, first, inkind, outkind, extra, (lb, ub, st), dyn, mid = case
     try:
         base = common.parse(text)
         base.verify()
@@ -223,6 +266,7 @@ def evaluate(case) -> CaseResult:
     for t in range(-4, T + 6):
         init[("A", t)] = ("init", "A", t)
         init[("O", t)] = ("init", "O", t)
+        init[("M", t)] = ("init", "M", t)
     for k in range(1, 2 * S + 2):
         init[("L", k)] = ("init", "L")
     ref = project(CM.sequential(ref_ev, init))
@@ -236,13 +280,13 @@ def evaluate(case) -> CaseResult:
         r.violate(key + "|use-before-def", case_j, f"use before def in the pipelined code: {e}; case {case}")
         return r
     # tiles outside the original iteration range
-    legal = set(range(lb, ub, st))
+    legal = set(range(lb, ub, st)) | {t[1] for e in ref_ev if e[0] == "op" for t in e[2] + e[3] if t[0] == "M"}
     for c, l in enumerate(lists):
         for e in l:
             if e[0] != "op":
                 continue
             for tl, kindname, allowed in ((e[2], "reads", inkind), (e[3], "writes", outkind)):
-                idxs = [t[1] for t in tl if t[0] in ("A", "O")]
+                idxs = [t[1] for t in tl if t[0] in ("A", "O", "M")]
                 if len(idxs) == 1 and idxs[0] not in legal:
                     r.violate(key + "|out-of-range", case_j, f"core {c}: op {e[1]} {kindname} tile {idxs[0]} which is outside the iteration range {sorted(legal)}; case {case}")
                     break
